@@ -423,4 +423,391 @@ theorem gate_spec {m : Module} (h : gate m = true) :
   | none => simp [hc] at this
   | some c => exact ⟨c, rfl, by simpa [hc] using this⟩
 
+
+/-! ## Clause lemmas (each from equations between fields) -/
+
+theorem countsOK_of {m a : Module} (hchn : m.chn = clampC a.chn 0 xmpMaxChannels)
+    (hlen : m.len = clampC a.len 0 xmpMaxModLength ∨ m.len = 0) (hpat : m.pat = clampC a.pat 0 epiPatMax)
+    (hins : m.ins = clampC a.ins 0 epiInsMax) (hsmp : m.smp = clampC a.smp 0 maxSamples) : countsOK m = true := by
+  have c1 := @clampC_ge a.chn 0 xmpMaxChannels (by omega)
+  have c2 := @clampC_le a.chn 0 xmpMaxChannels (by omega)
+  have l1 := @clampC_ge a.len 0 xmpMaxModLength (by omega)
+  have l2 := @clampC_le a.len 0 xmpMaxModLength (by omega)
+  have p1 := @clampC_ge a.pat 0 epiPatMax (by omega)
+  have p2 := @clampC_le a.pat 0 epiPatMax (by omega)
+  have i1 := @clampC_ge a.ins 0 epiInsMax (by omega)
+  have i2 := @clampC_le a.ins 0 epiInsMax (by omega)
+  have s1 := @clampC_ge a.smp 0 maxSamples (by omega)
+  have s2 := @clampC_le a.smp 0 maxSamples (by omega)
+  simp only [countsOK, Bool.and_eq_true, decide_eq_true_eq]
+  refine ⟨⟨⟨⟨⟨⟨⟨⟨⟨?_, ?_⟩, ?_⟩, ?_⟩, ?_⟩, ?_⟩, ?_⟩, ?_⟩, ?_⟩, ?_⟩ <;> omega
+
+theorem trackOK_congr {m m' : Module} (htrk : m'.trk = m.trk) (hxxt : m'.xxt = m.xxt) (t : Int) :
+    m'.trackOK t = m.trackOK t := by
+  unfold Module.trackOK Module.track?
+  rw [htrk, hxxt]
+
+theorem patOK_transfer {m m' : Module} (i : Nat) (hchn : m'.chn ≤ m.chn ∨ m'.chn ≤ 0) (htrk : m'.trk = m.trk)
+    (hxxt : m'.xxt = m.xxt) (hpat : ∀ q, m.pattern? i = some q → m'.pattern? i = some q)
+    (h : m.patOK i = true) : m'.patOK i = true := by
+  unfold Module.patOK at h ⊢
+  cases hq : m.pattern? i with
+  | none => simp [hq] at h
+  | some q =>
+    rw [hpat q hq]
+    simp only [hq] at h
+    simp only
+    rw [allBelow_iff] at h ⊢
+    intro j hj
+    have hj' := h j (by omega)
+    cases hidx : q.index[j]? with
+    | none => simp [hidx] at hj'
+    | some t =>
+      simp only [hidx] at hj' ⊢
+      rw [trackOK_congr htrk hxxt]; exact hj'
+
+theorem pattern?_prepareXxp (e : Module) (i : Nat) (q : Pattern) (h : e.pattern? i = some q) (m' : Module)
+    (hx : m'.xxp = prepareXxp e) : m'.pattern? i = some q := by
+  unfold Module.pattern? at h ⊢
+  rw [hx]
+  unfold prepareXxp
+  cases hp : e.xxp with
+  | none => simp [hp] at h
+  | some ps =>
+    simp only [hp] at h
+    simp only [Option.map_some, List.getElem?_mapIdx]
+    cases hi : ps[i]? with
+    | none => simp [hi] at h
+    | some o =>
+      cases o with
+      | none => simp [hi] at h
+      | some q' =>
+        simp only [hi, Option.join_some] at h
+        simp [h]
+
+theorem rstUpper_of {m a : Module} (hlen : m.len = clampC a.len 0 xmpMaxModLength ∨ m.len = 0)
+    (hrst : m.rst = if a.rst ≥ clampC a.len 0 xmpMaxModLength then 0 else a.rst) : rstUpperOK m = true := by
+  have l1 := @clampC_ge a.len 0 xmpMaxModLength (by omega)
+  simp only [rstUpperOK, Bool.or_eq_true, decide_eq_true_eq]
+  rcases hlen with h | h
+  · split at hrst <;> omega
+  · right; exact h
+
+theorem spdOK_of {m a : Module}
+    (h : m.spd = if a.spd ≤ 0 ∨ a.spd > (epiSpdMax : Int) then (epiSpdDefault : Int) else a.spd) : spdOK m = true := by
+  obtain ⟨_, h1, h2, h3, _⟩ := limits_sane
+  simp only [spdOK, Bool.and_eq_true, decide_eq_true_eq]
+  split at h <;> omega
+
+theorem bpmOK_of {m a : Module} (h : m.bpm = clampC a.bpm xmpMinBpm epiBpmMax) : bpmOK m = true := by
+  have hh := limits_sane.2.2.2.2.1
+  have c1 := @clampC_ge a.bpm xmpMinBpm epiBpmMax (by omega)
+  have c2 := @clampC_le a.bpm xmpMinBpm epiBpmMax (by omega)
+  simp only [bpmOK, Bool.and_eq_true, decide_eq_true_eq]
+  omega
+
+
+/-! ### Envelopes -/
+
+theorem envUpper_of (e' e : Envelope)
+    (hon : e'.on = (e.on && !(decide (e.npt ≤ 0) || decide (e.npt > (xmpMaxEnvPoints : Int)))))
+    (hloop : e'.floop = (e.floop && !(decide (e.lps ≥ e.npt) || decide (e.lpe ≥ e.npt))))
+    (hsus : e'.fsus = (e.fsus && !(decide (e.sus ≥ e.npt) || decide (e.sue ≥ e.npt))))
+    (h1 : e'.npt = e.npt) (h2 : e'.lps = e.lps) (h3 : e'.lpe = e.lpe) (h4 : e'.sus = e.sus) (h5 : e'.sue = e.sue) :
+    envUpperOK e' = true := by
+  simp only [envUpperOK, Bool.and_eq_true, Bool.or_eq_true, Bool.not_eq_true', decide_eq_true_eq]
+  rw [h1, h2, h3, h4, h5]
+  refine ⟨⟨?_, ?_⟩, ?_⟩
+  · by_cases h : e.npt ≤ 0 ∨ e.npt > (xmpMaxEnvPoints : Int)
+    · left; rw [hon]; simp only [Bool.and_eq_false_iff, Bool.not_eq_false', Bool.or_eq_true, decide_eq_true_eq]
+      right; exact h
+    · right; omega
+  · by_cases h : e.lps ≥ e.npt ∨ e.lpe ≥ e.npt
+    · left; rw [hloop]; simp only [Bool.and_eq_false_iff, Bool.not_eq_false', Bool.or_eq_true, decide_eq_true_eq]
+      right; exact h
+    · right; omega
+  · by_cases h : e.sus ≥ e.npt ∨ e.sue ≥ e.npt
+    · left; rw [hsus]; simp only [Bool.and_eq_false_iff, Bool.not_eq_false', Bool.or_eq_true, decide_eq_true_eq]
+      right; exact h
+    · right; omega
+
+theorem checkEnvelope_upper (e : Envelope) : envUpperOK (checkEnvelope e) = true :=
+  envUpper_of (checkEnvelope e) e rfl rfl rfl rfl rfl rfl rfl rfl
+
+theorem clampVol_upper (vb : Int) (e : Envelope) (h : envUpperOK e = true) :
+    envUpperOK (clampVolumeEnvelope vb e) = true := h
+
+theorem clampVol_volEnvOK (vb : Int) (hv : 0 ≤ vb) (e : Envelope) :
+    volEnvOK vb (clampVolumeEnvelope vb e) = true := by
+  unfold volEnvOK clampVolumeEnvelope
+  simp only [Bool.or_eq_true, Bool.not_eq_true']
+  cases hon : e.on with
+  | false => left; rfl
+  | true =>
+    right
+    rw [allBelow_iff]
+    intro k hk
+    simp only [if_true, List.getElem?_mapIdx]
+    cases hd : e.data[2 * k + 1]? with
+    | none => rfl
+    | some v =>
+      have h1 : (2 * k + 1) % 2 = 1 := by omega
+      have h2 : (2 * k + 1) / 2 = k := by omega
+      simp only [Option.map_some, h1, h2, hk, and_self, if_true, Bool.and_eq_true, decide_eq_true_eq]
+      exact ⟨clampC_ge hv, clampC_le hv⟩
+
+/-- lower bounds are never changed by the epilogue -/
+theorem checkEnvelope_envOK (e : Envelope) (h0 : 0 ≤ e.lps ∧ 0 ≤ e.lpe ∧ 0 ≤ e.sus ∧ 0 ≤ e.sue) :
+    envOK (checkEnvelope e) = true := by
+  have hu := checkEnvelope_upper e
+  simp only [envUpperOK, envOK, Bool.and_eq_true, Bool.or_eq_true, Bool.not_eq_true', decide_eq_true_eq] at hu ⊢
+  have e1 : (checkEnvelope e).lps = e.lps := rfl
+  have e2 : (checkEnvelope e).lpe = e.lpe := rfl
+  have e3 : (checkEnvelope e).sus = e.sus := rfl
+  have e4 : (checkEnvelope e).sue = e.sue := rfl
+  obtain ⟨⟨ha, hb⟩, hc⟩ := hu
+  rcases ha with ha | ha
+  · left; exact ha
+  · right
+    refine ⟨⟨ha, ?_⟩, ?_⟩
+    · rcases hb with hb | hb
+      · left; exact hb
+      · right; rw [e1, e2] at *; omega
+    · rcases hc with hc | hc
+      · left; exact hc
+      · right; rw [e3, e4] at *; omega
+
+/-! ### Sustain loops -/
+
+theorem xtraOK_core (s : Sample) (sus sue : Int) (h0 : 0 ≤ sus) (hle : sue ≤ s.len) :
+    xtraOK (if sus ≥ s.len ∨ sus ≥ sue then
+              (({ s with fsloop := false, fsloopBidir := false } : Sample), ({ sus := 0, sue := 0 } : Xtra))
+            else (s, { sus := sus, sue := sue })).1
+           (if sus ≥ s.len ∨ sus ≥ sue then
+              (({ s with fsloop := false, fsloopBidir := false } : Sample), ({ sus := 0, sue := 0 } : Xtra))
+            else (s, { sus := sus, sue := sue })).2 = true := by
+  split
+  · simp [xtraOK]
+  · simp only [xtraOK, Bool.or_eq_true, Bool.and_eq_true, decide_eq_true_eq]
+    right; omega
+
+theorem epilogueSmp_xtraOK (s : Sample) (x : Xtra) : xtraOK (epilogueSmp s x).1 (epilogueSmp s x).2 = true := by
+  unfold epilogueSmp
+  exact xtraOK_core s _ _ (by split <;> omega) (by split <;> omega)
+
+
+/-! ### Clauses over the instrument / sample tables -/
+
+theorem envelopesUpper_of {m a : Module} (hins : m.ins = clampC a.ins 0 epiInsMax) (hvb : m.volbase = a.volbase)
+    (hxxi : m.xxi = a.xxi.mapIdx fun i x =>
+      if (i : Int) < clampC a.ins 0 epiInsMax then epilogueIns a.volbase a.insvol x else x) :
+    envelopesUpperOK m = true := by
+  unfold envelopesUpperOK
+  rw [allBelow_iff]
+  intro i hi
+  rw [hxxi, List.getElem?_mapIdx]
+  cases a.xxi[i]? with
+  | none => rfl
+  | some x0 =>
+    have hlt : (i : Int) < clampC a.ins 0 epiInsMax := by omega
+    simp only [Option.map_some, hlt, if_true]
+    have e1 : (epilogueIns a.volbase a.insvol x0).aei = clampVolumeEnvelope a.volbase (checkEnvelope x0.aei) := rfl
+    have e2 : (epilogueIns a.volbase a.insvol x0).pei = checkEnvelope x0.pei := rfl
+    have e3 : (epilogueIns a.volbase a.insvol x0).fei = checkEnvelope x0.fei := rfl
+    rw [e1, e2, e3, hvb]
+    simp only [Bool.and_eq_true, Bool.or_eq_true, decide_eq_true_eq]
+    refine ⟨⟨⟨clampVol_upper _ _ (checkEnvelope_upper _), checkEnvelope_upper _⟩, checkEnvelope_upper _⟩, ?_⟩
+    by_cases hv : a.volbase < 0
+    · left; exact hv
+    · right; exact clampVol_volEnvOK _ (by omega) _
+
+theorem sustain_of {m a : Module} (hsmp : m.smp = clampC a.smp 0 maxSamples)
+    (hxxs : m.xxs = a.xxs.mapIdx fun i s =>
+      if (i : Int) < clampC a.smp 0 maxSamples then
+        (match a.xtra[i]? with | some x => (epilogueSmp s x).1 | none => s) else s)
+    (hxtra : m.xtra = a.xtra.mapIdx fun i x =>
+      if (i : Int) < clampC a.smp 0 maxSamples then
+        (match a.xxs[i]? with | some s => (epilogueSmp s x).2 | none => x) else x) :
+    sustainOK m = true := by
+  unfold sustainOK
+  rw [allBelow_iff]
+  intro i hi
+  rw [hxxs, hxtra, List.getElem?_mapIdx, List.getElem?_mapIdx]
+  have hlt : (i : Int) < clampC a.smp 0 maxSamples := by omega
+  cases hs : a.xxs[i]? with
+  | none => rfl
+  | some s0 =>
+    cases hx : a.xtra[i]? with
+    | none => rfl
+    | some x0 =>
+      simp only [Option.map_some, hlt, if_true]
+      exact epilogueSmp_xtraOK s0 x0
+
+theorem orders_of {m e : Module}
+    (h : m.len = 0 ∨ (m.len = e.len ∧ (firstValidOrder e : Int) < e.len ∧ m.xxo = e.xxo ∧ m.pat = e.pat)) :
+    ordersOK m = true := by
+  simp only [ordersOK, Bool.or_eq_true, decide_eq_true_eq]
+  rcases h with h | ⟨hl, hf, hx, hp⟩
+  · left; exact h
+  · right
+    unfold firstValidOrder at hf
+    cases hfind : (List.range e.len.toNat).find? fun o => decide ((e.xxo.getD o 0 : Int) < e.pat) with
+    | none => rw [hfind] at hf; simp only [Option.getD_none] at hf; omega
+    | some o =>
+      have h1 := List.mem_of_find?_eq_some hfind
+      have h2 := List.find?_some hfind
+      rw [List.any_eq_true]
+      rw [hl, hx, hp]
+      exact ⟨o, h1, h2⟩
+
+theorem channels_of {m raw : Module} (hchn : m.chn = clampC raw.chn 0 xmpMaxChannels) (hxxc : m.xxc = raw.xxc)
+    (hg : ∀ i : Nat, (i : Int) < raw.chn → ∃ c, raw.xxc[i]? = some c ∧ chanOK c = true) : channelsOK m = true := by
+  unfold channelsOK
+  rw [allBelow_iff]
+  intro i hi
+  have : (i : Int) < raw.chn := by
+    rw [hchn] at hi
+    unfold clampC at hi
+    split at hi
+    · omega
+    · split at hi <;> omega
+  obtain ⟨c, hc, hok⟩ := hg i this
+  rw [hxxc, hc]; exact hok
+
+theorem clampC_lt_imp {x b : Int} {i : Nat} (h : (i : Int) < clampC x 0 b) : (i : Int) < x := by
+  unfold clampC at h
+  split at h
+  · omega
+  · split at h <;> omega
+
+theorem clampC_le_or {x b : Int} (hb : 0 ≤ b) : clampC x 0 b ≤ x ∨ clampC x 0 b ≤ 0 := by
+  unfold clampC
+  split
+  · right; omega
+  · split <;> omega
+
+theorem patterns_of {m raw : Module} (hpat : m.pat = clampC raw.pat 0 epiPatMax)
+    (hchn : m.chn = clampC raw.chn 0 xmpMaxChannels) (htrk : m.trk = raw.trk) (hxxt : m.xxt = raw.xxt)
+    (hp : ∀ i q, raw.pattern? i = some q → m.pattern? i = some q)
+    (hg : ∀ i : Nat, (i : Int) < raw.pat → raw.patOK i = true) : patternsOK m = true := by
+  unfold patternsOK
+  rw [allBelow_iff]
+  intro i hi
+  rw [hpat] at hi
+  apply patOK_transfer i ?_ htrk hxxt (hp i) (hg i (clampC_lt_imp hi))
+  rw [hchn]; exact clampC_le_or (by omega)
+
+/-! ### Sequences -/
+
+theorem sequences_of {m : Module} {st : SeqState} {len : Nat} (hl : m.len.toNat = len) (hlen : len ≤ xmpMaxModLength)
+    (hn : m.numSeq = st.seq) (hd : m.seqData = st.eps.zip st.times) (hc : m.seqCtl = st.ctl)
+    (h1 : 1 ≤ st.seq) (h2 : st.seq ≤ maxSequences) (h3 : st.eps.length = st.seq) (h4 : st.times.length = st.seq)
+    (h5 : 0 < len → ∀ e ∈ st.eps, e < len) (h6 : ∀ t ∈ st.times, 0 ≤ t) (h7 : st.eps.Nodup)
+    (h8 : st.ctl.length = xmpMaxModLength)
+    (h9 : ∀ o, o < len → st.ctl.getD o 0xff = 0xff ∨ st.ctl.getD o 0xff < st.seq) :
+    sequencesOK m = true ∧ seqCtlOK m = true := by
+  constructor
+  · simp only [sequencesOK, Bool.or_eq_true, Bool.and_eq_true, decide_eq_true_eq]
+    by_cases hz : m.len ≤ 0
+    · left; exact hz
+    · right
+      have hpos : 0 < len := by omega
+      rw [hn, hd]
+      refine ⟨⟨⟨⟨h1, h2⟩, ?_⟩, ?_⟩, ?_⟩
+      · rw [List.length_zip, h3, h4]; exact Nat.min_self _
+      · rw [List.all_eq_true]
+        intro p hp
+        have hm := List.of_mem_zip hp
+        simp only [Bool.and_eq_true, decide_eq_true_eq]
+        have := h5 hpos p.1 hm.1
+        have := h6 p.2 hm.2
+        omega
+      · have : (List.map (fun p : Nat × Int => p.1) (st.eps.zip st.times)) = st.eps := by
+          have := List.map_fst_zip (l₁ := st.eps) (l₂ := st.times) (by omega)
+          simpa using this
+        rw [this]; exact h7
+  · unfold seqCtlOK
+    rw [allBelow_iff]
+    intro o ho
+    have ho' : o < len := by omega
+    rw [hc]
+    have hol : o < st.ctl.length := by omega
+    rw [List.getElem?_eq_getElem hol]
+    have := h9 o ho'
+    simp only [List.getD_eq_getElem?_getD, List.getElem?_eq_getElem hol, Option.getD_some] at this
+    simp only [Bool.or_eq_true, beq_iff_eq, decide_eq_true_eq]
+    rw [hn]; exact this
+
+
+/-! ### libxmp_adjust_string -/
+
+theorem rtrim_length_le (s : List UInt8) : (rtrim s).length ≤ s.length := by
+  unfold rtrim
+  rw [List.length_reverse]
+  have := (List.dropWhile_sublist (l := s.reverse) (fun b : UInt8 => decide (b = 0x20))).length_le
+  rw [List.length_reverse] at this
+  exact this
+
+theorem cstr_length_le (s : List UInt8) : (cstr s).length ≤ s.length := by
+  unfold cstr; exact (List.takeWhile_sublist _).length_le
+
+/-- the array keeps its size -/
+theorem adjustString_length (s : List UInt8) : (adjustString s).length = s.length := by
+  unfold adjustString
+  simp only [List.length_append, List.length_replicate, List.length_drop, List.length_map]
+  have h1 := rtrim_length_le ((cstr s).map fun b => if isPrintAscii b then b else 0x20)
+  rw [List.length_map] at h1
+  have h2 := cstr_length_le s
+  omega
+
+theorem drop_takeWhile_length {α} (p : α → Bool) (s : List α) : s.drop (s.takeWhile p).length = s.dropWhile p := by
+  induction s with
+  | nil => rfl
+  | cons a rest ih =>
+    simp only [List.takeWhile_cons, List.dropWhile_cons]
+    split
+    · simpa using ih
+    · simp
+
+theorem dropWhile_head_nul (s : List UInt8) (h : hasNul s = true) :
+    ∃ rest, s.dropWhile (fun b => decide (b ≠ 0)) = 0 :: rest := by
+  induction s with
+  | nil => simp [hasNul] at h
+  | cons a rest ih =>
+    simp only [List.dropWhile_cons]
+    by_cases ha : a = 0
+    · subst ha; exact ⟨rest, by simp⟩
+    · have : hasNul rest = true := by
+        simp only [hasNul, List.any_cons, Bool.or_eq_true, beq_iff_eq] at h ⊢
+        rcases h with h | h
+        · exact absurd h ha
+        · exact h
+      obtain ⟨r, hr⟩ := ih this
+      refine ⟨r, ?_⟩
+      have : decide (a ≠ 0) = true := by simpa using ha
+      rw [if_pos this]; exact hr
+
+/-- a terminated name stays terminated -/
+theorem adjustString_hasNul (s : List UInt8) (h : hasNul s = true) : hasNul (adjustString s) = true := by
+  unfold adjustString
+  simp only [List.length_map]
+  unfold cstr
+  rw [drop_takeWhile_length]
+  obtain ⟨r, hr⟩ := dropWhile_head_nul s h
+  rw [hr]
+  simp [hasNul]
+
+theorem epilogueSmp_name (s : Sample) (x : Xtra) : (epilogueSmp s x).1.name = s.name := by
+  unfold epilogueSmp
+  simp only
+  split <;> rfl
+
+theorem smpStep_name (c : Prop) [Decidable c] (o : Option Xtra) (s : Sample) :
+    (if c then (match o with | some x => (epilogueSmp s x).1 | none => s) else s).name = s.name := by
+  split
+  · cases o with
+    | none => rfl
+    | some x => exact epilogueSmp_name s x
+  · rfl
+
 end Xmp.LoadPost
